@@ -55,11 +55,11 @@ type kTopo struct {
 
 type kCmd struct {
 	UID    string   `json:"uid"`
-	Kind   string   `json:"kind"` // kecho (read-only) | kset (write) | get
+	Kind   string   `json:"kind"` // kecho (read-only) | kset (write) | ksetr (write marked ToRetryable) | get
 	Key    string   `json:"key"`
 	Slot   int      `json:"slot"`
 	LatUs  int      `json:"lat_us,omitempty"`
-	Script []string `json:"script,omitempty"` // scripted answer to the k-th arrival: "" | tryagain | loading | clusterdown
+	Script []string `json:"script,omitempty"` // scripted outcome of the k-th arrival: "" | tryagain | loading | clusterdown | err | nil | drop-before | drop-after
 }
 
 // kItem is one command, or (Tx) a MULTI .. EXEC block around its commands.
@@ -90,15 +90,17 @@ type kEvent struct {
 }
 
 type kCfg struct {
-	MaxRedir   int  `json:"max_redir"`
-	Retry      bool `json:"retry"`
-	RetryMax   int  `json:"retry_max"` // RetryDelay answers -1 after this many attempts
-	RESP2      bool `json:"resp2,omitempty"`
-	Multiplex  int  `json:"multiplex"`
-	BaseLatUs  int  `json:"base_lat_us"` // latency of the first user command of a burst
-	TopoLatUs  int  `json:"topo_lat_us,omitempty"`
-	RefreshUs  int  `json:"refresh_us,omitempty"` // ShardsRefreshInterval
-	PreferInit bool `json:"prefer_init,omitempty"`
+	MaxRedir int  `json:"max_redir"`
+	Retry    bool `json:"retry"`
+	RetryMax int  `json:"retry_max"` // RetryDelay answers -1 after this many attempts
+	// RetryTable (C28): delay in us answered for attempt i+1, -1 = negative; beyond the table: negative. Overrides RetryMax.
+	RetryTable []int `json:"retry_table,omitempty"`
+	RESP2      bool  `json:"resp2,omitempty"`
+	Multiplex  int   `json:"multiplex"`
+	BaseLatUs  int   `json:"base_lat_us"` // latency of the first user command of a burst
+	TopoLatUs  int   `json:"topo_lat_us,omitempty"`
+	RefreshUs  int   `json:"refresh_us,omitempty"` // ShardsRefreshInterval
+	PreferInit bool  `json:"prefer_init,omitempty"`
 	// replica routing (C21)
 	Pred        string   `json:"pred,omitempty"` // "" (nil) always never readonly kecho slot-odd uid-odd
 	ReplicaOnly bool     `json:"replica_only,omitempty"`
@@ -202,7 +204,7 @@ func (c kCmd) argv() []string {
 	switch c.Kind {
 	case "kecho":
 		return []string{"KECHO", c.Key, c.UID}
-	case "kset":
+	case "kset", "ksetr":
 		return []string{"KSET", c.Key, c.UID}
 	}
 	return []string{"GET", c.Key}
@@ -344,7 +346,16 @@ type kSelCall struct {
 	Ret   int
 }
 
+type kRetryCall struct {
+	AtUs    int64
+	Attempt int
+	UID     string
+	Err     string
+	DelayUs int
+}
+
 type kRun struct {
+	RetryCalls []kRetryCall
 	Res        bubble.Result
 	Results    []*kResult
 	Events     []fakeredis.Event
@@ -526,9 +537,38 @@ func kRunPlan(t *testing.T, plan kPlan) (run kRun) {
 					return resp.Err("LOADING Redis is loading the dataset in memory"), true
 				case "clusterdown":
 					return resp.Err("CLUSTERDOWN The cluster is down"), true
+				case "err":
+					return resp.Err("ERR plain " + cm.UID), true
+				case "nil":
+					return resp.Null(), true
 				}
 			}
 			return resp.Value{}, false
+		}
+		for _, s := range servers {
+			// connection drops: before the server executes the command / after it executed it, without a reply
+			s.Hooks.Fault = func(c *fakeredis.Conn, req int, argv []string) fakeredis.Fault {
+				cm := byUID[uidOf(argv)]
+				if cm == nil || len(cm.Script) == 0 {
+					return fakeredis.Fault{}
+				}
+				w.Lock()
+				k, kind := arrivals[cm.UID], ""
+				if k < len(cm.Script) {
+					kind = cm.Script[k]
+				}
+				if kind == "drop-before" {
+					arrivals[cm.UID] = k + 1 // the command is never dispatched, so cl.Before does not count this arrival
+				}
+				w.Unlock()
+				switch kind {
+				case "drop-before":
+					return fakeredis.Fault{Kind: fakeredis.DropBeforeExec}
+				case "drop-after":
+					return fakeredis.Fault{Kind: fakeredis.DropAfterExec}
+				}
+				return fakeredis.Fault{}
+			}
 		}
 		opt := sim.Option(w, plan.Topo.Init...)
 		dialSem := make(chan struct{}, 1)
@@ -572,10 +612,24 @@ func kRunPlan(t *testing.T, plan kPlan) (run kRun) {
 			opt.DisableCache = true
 		}
 		opt.RetryDelay = func(attempts int, cmd rueidis.Completed, err error) time.Duration {
-			if attempts > plan.Cfg.RetryMax {
+			d := -1
+			switch {
+			case plan.Cfg.RetryTable != nil:
+				if attempts-1 < len(plan.Cfg.RetryTable) {
+					d = plan.Cfg.RetryTable[attempts-1]
+				}
+			case attempts <= plan.Cfg.RetryMax:
+				d = attempts * 300
+			}
+			mu.Lock()
+			if len(run.RetryCalls) < 100000 {
+				run.RetryCalls = append(run.RetryCalls, kRetryCall{AtUs: w.Since(), Attempt: attempts, UID: uidOf(cmd.Commands()), Err: fmt.Sprint(err), DelayUs: d})
+			}
+			mu.Unlock()
+			if d < 0 {
 				return -1
 			}
-			return time.Duration(attempts) * 300 * time.Microsecond
+			return time.Duration(d) * time.Microsecond
 		}
 		clock := sim.NewClock()
 		if plan.Cfg.Pred != "" {
@@ -629,6 +683,8 @@ func kRunPlan(t *testing.T, plan kPlan) (run kRun) {
 				return client.B().Arbitrary("KECHO").Keys(cm.Key).Args(cm.UID).ReadOnly()
 			case "kset":
 				return client.B().Arbitrary("KSET").Keys(cm.Key).Args(cm.UID).Build()
+			case "ksetr":
+				return client.B().Arbitrary("KSET").Keys(cm.Key).Args(cm.UID).Build().ToRetryable()
 			}
 			return client.B().Get().Key(cm.Key).Build()
 		}
